@@ -37,6 +37,28 @@ def body_parse_range(I, X, n=4):
     if r is None:
         return True, {"ranges": None}
     ok = r.units == "bytes" and len(r.ranges) >= 1
+    # soundness against an independent reading of the grammar (RFC 7233 byte-range-set):
+    # every returned range is what its item says -- 'A-B', 'A-' or '-N' with plain digits
+    from symex.poly import pint
+
+    DIG = [(0x30, 0x39)]
+    items = [it.strip() for it in tail.split(",")]
+    ok = pand(ok, len(items) == len(r.ranges))
+    if len(items) == len(r.ranges):
+        for it, (b, e) in zip(items, r.ranges):
+            if bool(peq(it[:1], "-")):
+                num = it[1:]
+                wf = pand(plen(num) > 0, pall_in(num, DIG))
+                ok = pand(ok, wf, e is None)
+                if bool(wf):
+                    ok = pand(ok, peq(b, -pint(num)))
+            else:
+                a, sep, z = it.partition("-")
+                a, z = a.strip(), z.strip()
+                wf = pand(plen(sep) == 1, plen(a) > 0, pall_in(a, DIG), pall_in(z, DIG))
+                ok = pand(ok, wf)
+                if bool(wf):
+                    ok = pand(ok, peq(b, pint(a)), (e is None) if plen(z) == 0 else (e is not None and peq(e, pint(z) + 1)))
     last_end = 0
     for b, e in r.ranges:
         if e is None:
